@@ -280,7 +280,7 @@ func c05Case(c *core.Ctx, idx int) {
 		}
 	}
 	// consequence: every Marshal output walks, recursively, to its precise end
-	if idx%8 == 5 && tc.typ.Kind() == reflect.Struct {
+	if idx%7 == 5 && tc.typ.Kind() == reflect.Struct {
 		sizedBodies(c, idx, tc, (&gen.VG{R: rv, C: tc.cfg, Budget: 60}).Value(tc.typ, ""), modeC02)
 	}
 	var seenVals []reflect.Value
@@ -288,7 +288,7 @@ func c05Case(c *core.Ctx, idx int) {
 	defer func() {
 		// ... also when several goroutines use the codecs at once: sizes, length prefixes and bodies
 		// of one call must not depend on the values other calls are encoding
-		if idx%4 == 2 && len(seenVals) > 1 {
+		if idx%3 == 2 && len(seenVals) > 1 {
 			const g, rounds = 6, 40
 			same := func(i int, a, b []byte) bool { return bytes.Equal(a, b) }
 			rec.Eval(g * rounds * len(seenVals))
@@ -344,7 +344,7 @@ func init() {
 		ID:        "C05",
 		Technique: "online checker of the Codec laws on every codec reachable from generated types (direct Size/Append/Read calls with 0/1/2/5-byte tags) + structural walk of every Marshal output",
 		Rule: "for every sub-type (field, element, key, value, pointer target; with its tag option) of every generated type the codec plenc builds is called directly on boundary-biased values including omitted ones: Size==len(Append) without a tag and with tags of index 1,15,16,2047,2048,2^28; tagged = tag+len+body (one frame per element in the repeated form); Read(body [+trailing bytes]) consumes exactly the body and yields the value; every Marshal output is walked by the model's strict parser. " +
-			"after changing a value in place the same variable is marshalled again into the re-used buffer; every fourth case ends with 6 goroutines marshalling the case's values at once, each result compared with the call made alone. " +
+			"after changing a value in place the same variable is marshalled again into the re-used buffer; every third case ends with 6 goroutines marshalling the case's values at once, each result compared with the call made alone. " +
 			"distinct = (sub-type, option, configuration, value-shape) hashes with a non-zero value",
 		Assume: []string{"calling convention for map codecs as used by StructCodec (map pointer for writing, address of the map variable for reading)", "model.Canon as the independent walker"},
 		Plan: func(tier string) []core.Lane {
